@@ -63,6 +63,29 @@ def rect_shapes_oracle_only(thorough):
     return shapes
 
 
+BIG_SIDE = 64      # above this side length the observation is recorded in compact form (non-empty adjacency lists only)
+
+
+def compress_graph(nu, nv, edges):
+    """the graph without its isolated vertices, the others renumbered in ascending order: (nu', nv', edges', umap, vmap).
+    Isolated vertices take part in no edge, hence in no matching, and a minimum cover never needs them: maximum matching
+    size and minimum cover size of the compressed graph are those of the original one (used by the reference computations
+    on graphs with very many, almost all isolated, vertices)"""
+    es = sorted(set(map(tuple, edges)))
+    us = sorted({u for u, _ in es})
+    vs = sorted({v for _, v in es})
+    um = {u: i for i, u in enumerate(us)}
+    vm = {v: i for i, v in enumerate(vs)}
+    return len(us), len(vs), [(um[u], vm[v]) for (u, v) in es], um, vm
+
+
+def _adj_norm(full, nz, length):
+    """observed adjacency structure as (length, {vertex: list} of the non-empty lists), from either recorded form"""
+    if full is not None:
+        return len(full), {i: list(a) for i, a in enumerate(full) if a}
+    return length, {int(i): list(a) for i, a in nz}
+
+
 class C14(Prop):
     id = "C14"
     title = "bipartite vertex cover"
@@ -73,7 +96,13 @@ class C14(Prop):
             "walks alternating paths; half of them wide num_v > num_u, else tall/square; random vertex numbering; sides up to 9x13); "
             "oracle-only graph cases (flag notie, the model is not evaluated): every edge set of the rectangular shapes "
             "1x4 4x1 2x4 4x2 3x4 4x3 2x5 5x2 (quick) / 2x5 5x2 2x6 6x2 3x5 5x3 (thorough), and the random + deficient families "
-            "on sides up to 14x20; koenig cases: a random valid "
+            "on sides up to 14x20, and LARGE-INDEX sparse graphs (family large_index): 1..~20 edge entries on a graph one side of which has "
+            "B*m + a few vertices, B a power of two (2^4 .. 2^17 quick, .. 2^20 thorough, 2^16 most often), a power of ten or arbitrary, "
+            "almost all vertices isolated; endpoints near 0, near the top of the range and near multiples of B, plus edges that alias an "
+            "earlier entry under a packed / truncated / decimal-concatenated edge key ((u,v) ~ (u-+d, v+-d*B), (u, v+-d*B)), plus exact "
+            "duplicates; 3/4 with the many vertices on the V side, 1/4 on the U side (smaller: up to ~2^11 quick, 2^13, rarely 2^16 thorough); "
+            "their observation is recorded compactly (list counts + non-empty adjacency lists) and the reference sizes are computed on "
+            "the graph without its isolated vertices; koenig cases: a random valid "
             "(not necessarily maximum) matching handed to _explore_alternating_paths; malformed cases: sides < 1, out-of-range / "
             "negative endpoints (both sides must reject). non-trivial = at least one edge; distinct by case content")
     clauses = [
@@ -91,7 +120,8 @@ class C14(Prop):
         ("V", "model = code: exact differential comparison of adjacency lists, matching (order included), both cover lists, outcome of the "
               "size assert and the per-start visit orders of _explore_alternating_paths, on every explored graph that is not flagged oracle-only "
               "(distribution counter tie:model); rejected inputs on both sides. The oracle-only graphs (tie:oracle_only) are judged by the property "
-              "oracle alone: cover touches every edge, vertices exist, size = Kuhn maximum matching = exact minimum cover by enumeration"),
+              "oracle alone: cover touches every edge, vertices exist, size = Kuhn maximum matching = exact minimum cover by enumeration; "
+              "this includes the large-index sparse graphs (vertex indices up to 2^17 quick / 2^20 thorough), which the model is never evaluated on"),
     ]
     trusted_base = ["inputs are Python ints (sides) and a sequence of int pairs (the documented domain of BipartiteGraph)",
                     "set(range(n)) is iterated in ascending order by CPython for small ints; irrelevant for the result "
@@ -152,6 +182,14 @@ class C14(Prop):
             e2 = [[pu[u], pv[v]] for u, v in edges]
             rng.shuffle(e2)
             cases.append({"kind": "graph", "nu": nu + 1, "nv": nv + 1, "edges": e2 + [list(e2[0])]})
+        # LARGE-INDEX sparse graphs (oracle only): one side has far more vertices than there are edges (almost all isolated),
+        # so that vertex indices pass 2^8, 2^16, 10^k, ... ; few edges, their endpoints near 0, near the top of the range and
+        # near multiples of a radix B, together with edges that would ALIAS an earlier one under a packed / truncated /
+        # concatenated edge key ((u, v) and (u -+ d, v +- d*B), (u, v +- d*B), decimal concatenation split elsewhere);
+        # both orientations (many V vertices: frequent and cheap, many U vertices: rarer and smaller, the BFS visits all of them)
+        rng3 = ctx.rng(stream + ":large")
+        for _ in range(ctx.scale(260, 2600) * budget_scale):
+            cases.append(self._random_large_index_graph(rng3, ctx.thorough()))
         nk = ctx.scale(150, 1500) * budget_scale
         for _ in range(nk):
             c = self._random_graph(rng)
@@ -227,6 +265,68 @@ class C14(Prop):
         return {"kind": "graph", "nu": nu, "nv": nv, "edges": edges, "family": "deficient"}
 
     @staticmethod
+    def _random_large_index_graph(rng, thorough):
+        style = rng.random()
+        if style < 0.6:       # radix: a power of two ...
+            B = 1 << rng.choice([4, 6, 8, 8, 10, 12, 15, 16, 16, 16, 16, 16])
+            if rng.random() < (0.12 if thorough else 0.06):
+                B = 1 << rng.choice([17, 17, 17, 18, 20] if thorough else [17])
+        elif style < 0.8:     # ... a power of ten ...
+            B = 10 ** rng.randrange(1, 6)
+        else:                 # ... or anything
+            B = rng.randrange(3, 5000)
+        over_v = rng.random() < 0.75          # the side whose indices pass the radix (generated as V, transposed at the end)
+        if over_v:
+            cap = (1 << 20) if thorough else (1 << 17)
+        else:                                 # many U vertices are expensive: the BFS of every phase queues each unmatched one
+            cap = ((1 << 16) if rng.random() < 0.05 else (1 << 13)) if thorough else (1 << 11)
+        B = min(B, cap)
+        mult = rng.choice([1, 1, 2, 3]) if B <= ((1 << 12) if over_v else (1 << 9)) else 1
+        nbig = B * mult + rng.choice([1, 1, 2, 9, rng.randrange(1, min(B, 64) + 1)])
+        nsmall = rng.randrange(1, 13) if rng.random() < 0.8 else rng.randrange(13, 300)
+
+        def pick_big():
+            r = rng.random()
+            if r < 0.3:
+                return rng.randrange(min(nbig, 8))
+            if r < 0.45:
+                return nbig - 1 - rng.randrange(min(nbig, 8))
+            if r < 0.85:
+                x = B * rng.randrange(1, nbig // B + 1) + rng.randrange(-3, 9)
+                return min(max(x, 0), nbig - 1)
+            return rng.randrange(nbig)
+
+        def pick_small():
+            return rng.randrange(min(nsmall, 4)) if rng.random() < 0.5 else rng.randrange(nsmall)
+
+        edges = [(pick_small(), pick_big()) for _ in range(rng.randrange(1, 9))]
+        for (u, v) in list(edges):
+            if rng.random() < 0.6:
+                for _ in range(6):            # an alias of (u, v) under a key  u * B + v,  (u << k) | v,  v mod B, ...
+                    d = rng.choice([1, 1, 1, 2, 3])
+                    sgn = rng.choice([1, -1])
+                    u2, v2 = u + rng.choice([0, -sgn * d, -sgn * d]), v + sgn * d * B
+                    if 0 <= u2 < nsmall and 0 <= v2 < nbig:
+                        edges.append((u2, v2))
+                        break
+            if rng.random() < 0.2:            # an alias under the concatenation of the decimal spellings
+                txt = str(u) + str(v)
+                cuts = [i for i in range(1, len(txt)) if i != len(str(u)) and txt[i] != "0"
+                        and int(txt[:i]) < nsmall and int(txt[i:]) < nbig]
+                if cuts:
+                    i = rng.choice(cuts)
+                    edges.append((int(txt[:i]), int(txt[i:])))
+        rng.shuffle(edges)
+        if rng.random() < 0.3:                # explicit duplicates
+            for _ in range(rng.randrange(1, 3)):
+                edges.insert(rng.randrange(len(edges) + 1), rng.choice(edges))
+        if over_v:
+            nu, nv, es = nsmall, nbig, [[u, v] for (u, v) in edges]
+        else:
+            nu, nv, es = nbig, nsmall, [[v, u] for (u, v) in edges]
+        return {"kind": "graph", "nu": nu, "nv": nv, "edges": es, "notie": True, "family": "large_index", "radix": B}
+
+    @staticmethod
     def _random_graph(rng, maxu=8, maxv=8):
         nu = rng.randrange(1, maxu + 1)
         nv = rng.randrange(1, maxv + 1)
@@ -253,15 +353,22 @@ class C14(Prop):
         c = Counter()
         for x in cases:
             c["kind:" + x["kind"]] += 1
-            c["sides:%dx%d" % (max(x["nu"], 0), max(x["nv"], 0))] += 1
+            if max(x["nu"], x["nv"]) > BIG_SIDE:
+                k = max(x["nu"], x["nv"]).bit_length() - 1
+                c["sides:large(2^%d <= max side < 2^%d)" % (k, k + 1)] += 1
+                c["large:" + ("many_V" if x["nv"] >= x["nu"] else "many_U")] += 1
+            else:
+                c["sides:%dx%d" % (max(x["nu"], 0), max(x["nv"], 0))] += 1
             c["tie:" + ("oracle_only" if x.get("notie") else "model")] += 1
             if x.get("family"):
                 c["family:" + x["family"]] += 1
             if x["kind"] != "malformed":
                 c["shape:" + ("wide" if x["nv"] > x["nu"] else "tall" if x["nv"] < x["nu"] else "square")] += 1
             es = [tuple(e) for e in x["edges"]]
-            if x["kind"] == "graph" and x["nu"] >= 1 and x["nv"] >= 1 and kuhn_max_matching(x["nu"], x["nv"], es) < x["nu"]:
-                c["with_unmatched_u_vertex"] += 1
+            if x["kind"] == "graph" and x["nu"] >= 1 and x["nv"] >= 1:
+                cu, cv, ces, _, _ = compress_graph(x["nu"], x["nv"], es)
+                if kuhn_max_matching(cu, cv, ces) < x["nu"]:
+                    c["with_unmatched_u_vertex"] += 1
             if len(set(es)) < len(es):
                 c["with_duplicate_entries"] += 1
             if x["kind"] != "malformed" and x["nu"] >= 1 and x["nv"] >= 1:
@@ -283,8 +390,14 @@ class C14(Prop):
                     ob["ctor_exception"] = type(e).__name__
                     out.append(ob)
                     continue
-                ob["adj_u"] = [list(a) for a in g.adj_u]
-                ob["adj_v"] = [list(a) for a in g.adj_v]
+                big = max(c["nu"], c["nv"]) > BIG_SIDE and c["kind"] == "graph" and c.get("notie")
+                if big:     # compact record: lengths and the non-empty lists only; no exploration traces (oracle-only case)
+                    snap = lambda adj: [[i, list(a)] for i, a in enumerate(adj) if a]
+                    ob["adj_len"] = [len(g.adj_u), len(g.adj_v)]
+                    ob["adj_u_nz"], ob["adj_v_nz"] = snap(g.adj_u), snap(g.adj_v)
+                else:
+                    ob["adj_u"] = [list(a) for a in g.adj_u]
+                    ob["adj_v"] = [list(a) for a in g.adj_v]
                 if c["kind"] == "koenig":
                     matching = [tuple(e) for e in c["matching"]]
                 else:
@@ -295,6 +408,10 @@ class C14(Prop):
                         ob["u_cover"], ob["v_cover"] = list(uc), list(vc)
                     except AssertionError:
                         ob["mvc_assert"] = True
+                    if big:
+                        ob["adj_after_nz"] = [[len(g.adj_u), len(g.adj_v)], snap(g.adj_u), snap(g.adj_v)]
+                        out.append(ob)
+                        continue
                     ob["adj_after"] = [[list(a) for a in g.adj_u], [list(a) for a in g.adj_v]]
                 # the exploration exactly as minimum_vertex_cover calls it: fresh lists per unmatched start vertex
                 matched = {u for (u, _) in matching}
@@ -452,13 +569,31 @@ class C14(Prop):
         if "exception" in ob:
             return f"raised {ob['exception']}"
         es = set(edges)
-        # adjacency = the edge set, no duplicates
-        for u in range(nu):
-            if sorted(ob["adj_u"][u]) != sorted({v for (a, v) in es if a == u}):
-                return f"adj_u[{u}] = {ob['adj_u'][u]} is not the neighbour set of {u}"
-        for v in range(nv):
-            if sorted(ob["adj_v"][v]) != sorted({a for (a, b) in es if b == v}):
-                return f"adj_v[{v}] = {ob['adj_v'][v]} is not the neighbour set of {v}"
+        # adjacency = the edge set, no duplicates (one list per vertex of each side; the non-empty ones are the neighbour sets)
+        nbu, nbv = {}, {}
+        for (a, b) in es:
+            nbu.setdefault(a, set()).add(b)
+            nbv.setdefault(b, set()).add(a)
+        lu, adju = _adj_norm(ob.get("adj_u"), ob.get("adj_u_nz"), ob.get("adj_len", [None, None])[0])
+        lv, adjv = _adj_norm(ob.get("adj_v"), ob.get("adj_v_nz"), ob.get("adj_len", [None, None])[1])
+        adj_msg = None
+        if lu != nu or lv != nv:
+            adj_msg = f"adjacency structure has {lu} x {lv} lists for a graph with {nu} x {nv} vertices"
+        for u in sorted(set(adju) | set(nbu)):
+            if adj_msg is None and sorted(adju.get(u, [])) != sorted(nbu.get(u, ())):
+                adj_msg = f"adj_u[{u}] = {adju.get(u, [])} is not the neighbour set {sorted(nbu.get(u, ()))} of {u}"
+        for v in sorted(set(adjv) | set(nbv)):
+            if adj_msg is None and sorted(adjv.get(v, [])) != sorted(nbv.get(v, ())):
+                adj_msg = f"adj_v[{v}] = {adjv.get(v, [])} is not the neighbour set {sorted(nbv.get(v, ()))} of {v}"
+        if case["kind"] == "graph" and not ob.get("mvc_assert"):
+            # the clauses of the property text first (cover / matching of the graph GIVEN by the edge list); a wrong adjacency
+            # structure is reported together with what it does to the returned cover, or alone if the cover is still right
+            msg = self._oracle_cover(case, ob, nu, nv, edges, es)
+            if msg and adj_msg:
+                return msg + "; the BipartiteGraph object is wrong already: " + adj_msg
+            return msg or adj_msg
+        if adj_msg:
+            return adj_msg
         if case["kind"] == "koenig":
             # closure property of the exploration for an arbitrary valid matching: (U minus visited, visited V) is a cover
             zu = {u for t in ob["traces"] for u in t[1]}
@@ -471,7 +606,14 @@ class C14(Prop):
             return None
         if ob.get("mvc_assert"):
             return "minimum_vertex_cover raised AssertionError (cover size != matching size)"
-        if ob["adj_after"] != [ob["adj_u"], ob["adj_v"]]:
+        return self._oracle_cover(case, ob, nu, nv, edges, es)
+
+    @staticmethod
+    def _oracle_cover(case, ob, nu, nv, edges, es):
+        if "adj_after_nz" in ob:
+            if ob["adj_after_nz"] != [ob["adj_len"], ob["adj_u_nz"], ob["adj_v_nz"]]:
+                return "the graph was modified by minimum_vertex_cover"
+        elif ob["adj_after"] != [ob["adj_u"], ob["adj_v"]]:
             return "the graph was modified by minimum_vertex_cover"
         m = [tuple(p) for p in ob["matching"]]
         for (u, v) in m:
@@ -484,16 +626,20 @@ class C14(Prop):
             return f"cover ({uc},{vc}) contains a vertex that does not exist"
         if len(set(uc)) != len(uc) or len(set(vc)) != len(vc):
             return f"cover ({uc},{vc}) lists a vertex twice"
-        for (u, v) in es:
+        for (u, v) in sorted(es):
             if u not in uc and v not in vc:
                 return f"edge {(u, v)} is not touched by the cover ({uc},{vc})"
-        mm = kuhn_max_matching(nu, nv, edges)
+        if max(nu, nv) > BIG_SIDE:     # reference sizes on the graph without its isolated vertices (same sizes, see compress_graph)
+            rnu, rnv, redges, _, _ = compress_graph(nu, nv, edges)
+        else:
+            rnu, rnv, redges = nu, nv, edges
+        mm = kuhn_max_matching(rnu, rnv, redges)
         if len(m) != mm:
             return f"matching has size {len(m)}, a maximum matching has size {mm}"
         if len(uc) + len(vc) != mm:
             return f"cover size {len(uc) + len(vc)} != maximum matching size {mm}"
-        if min(nu, nv) <= 10:
-            mc = min_cover_size_enum(nu, nv, edges)
+        if min(rnu, rnv) <= 10:
+            mc = min_cover_size_enum(rnu, rnv, redges)
             if len(uc) + len(vc) != mc:
                 return f"cover size {len(uc) + len(vc)} but a cover of size {mc} exists"
         return None
